@@ -48,10 +48,16 @@ def run(prog, x, ap):
             regs.append(regs[ins[1]] ** ins[2])
         elif k == 'sum':
             regs.append(ap.sum(regs[ins[1]]))
+        elif k == 'prod':
+            regs.append(ap.prod(regs[ins[1]]))
         elif k == 'sumaxis':
             regs.append(ap.sum(regs[ins[1]], axis=ins[2]))
         elif k == 'dot':
             regs.append(ap.dot(regs[ins[1]], regs[ins[2]]))
+        elif k == 'dotc':
+            regs.append(ap.dot(regs[ins[1]], numpy.array(ins[2], dtype=float)))
+        elif k == 'cdot':
+            regs.append(ap.dot(numpy.array(ins[1], dtype=float), regs[ins[2]]))
         elif k == 'zeros':
             regs.append(ap.zeros(ins[1], dtype=x))
         elif k == 'zeros2':
@@ -196,6 +202,15 @@ class Gen:
         if r < 0.6:
             w = self.emit(['un', self.rng.choice(['sin', 'cos', 'square']), v], ('v', n))
             return self.emit(['dot', v, w], 's')
+        if r < 0.7:
+            # product of all elements (of a vector or of its reshape to a matrix), the operand being used elsewhere as well
+            w = self.emit(['un', 'sin', v], ('v', n))
+            w2 = self.emit(['bin', 'add', ['r', w], ['c', 1.5]], ('v', n))
+            if n % 2 == 0 and self.rng.random() < 0.5:
+                w2 = self.emit(['reshape', w2, [2, n // 2]], ('m', 2, n // 2))
+            pr = self.emit(['prod', w2], 's')
+            sm = self.emit(['sum', w2], 's')
+            return self.emit(['bin', 'add', ['r', pr], ['r', sm]], 's')
         if r < 0.8:
             s = self.pick_scalar()
             w = self.emit(['bin', self.rng.choice(['mul', 'add']), ['r', v], ['r', s]], ('v', n))    # broadcasting scalar with vector
@@ -230,6 +245,44 @@ class Gen:
         P = self.emit(['dot', M, M], ('m', n, n))
         s0 = self.emit(['sumaxis', P, self.rng.choice([0, 1, -1])], ('v', n))
         return self.emit(['sum', s0], 's')
+
+    def rect_block(self):
+        """rectangular matrix and vectors built from scalars; dot with every operand rank mix (matrix.vector, vector.matrix,
+        matrix.matrix with unequal shapes, constant ndarray on either side)"""
+        r_, c_ = self.rng.choice([(2, 3), (3, 2), (2, 2), (3, 3)])
+        M = self.emit(['zeros2', r_, c_], 'bufm')
+        for i in range(r_):
+            for j in range(c_):
+                t = self.emit(['un', self.rng.choice(['sin', 'cos']), self.pick_scalar()], 's')
+                self.emit(['set2', M, i, j, ['r', t]])
+        def vec(n):
+            v = self.emit(['zeros', n], 'bufv')
+            for k in range(n):
+                self.emit(['set', v, k, ['r', self.pick_scalar()]])
+            return v
+        def carr(*shape):
+            return numpy.array([self.rng.choice([0.5, -1.0, 2.0, 1.5, -0.25]) for _ in range(int(numpy.prod(shape)))]).reshape(shape).tolist()
+        kind = self.rng.choice(['mv', 'vm', 'mm', 'mc', 'cm', 'mcv', 'cvm'])
+        if kind == 'mv':
+            z = self.emit(['dot', M, vec(c_)], ('v', r_)); n = (r_,)
+        elif kind == 'vm':
+            z = self.emit(['dot', vec(r_), M], ('v', c_)); n = (c_,)
+        elif kind == 'mm':
+            MT = self.emit(['T', M], ('m', c_, r_))
+            M2 = self.emit(['un', 'square', MT], ('m', c_, r_))
+            z = self.emit(['dot', M, M2], ('m', r_, r_)); n = (r_, r_)
+        elif kind == 'mc':
+            k_ = self.rng.choice([2, 3])
+            z = self.emit(['dotc', M, carr(c_, k_)], ('m', r_, k_)); n = (r_, k_)
+        elif kind == 'cm':
+            k_ = self.rng.choice([2, 3])
+            z = self.emit(['cdot', carr(k_, r_), M], ('m', k_, c_)); n = (k_, c_)
+        elif kind == 'mcv':
+            z = self.emit(['dotc', M, carr(c_)], ('v', r_)); n = (r_,)
+        else:
+            z = self.emit(['cdot', carr(r_), M], ('v', c_)); n = (c_,)
+        w = self.emit(['bin', 'mul', ['r', z], ['a', carr(*n)]], ('a',) + n)
+        return self.emit(['sum', w], 's')
 
     def fact_block(self):
         """symmetric positive definite 2x2 or 3x3 matrix built from scalars, then eigh / qr / cholesky; uniquely defined outputs only"""
@@ -287,6 +340,8 @@ class Gen:
                 outs.append(self.matrix_block())
             elif not self.scalar_only and self.linalg and self.facts and r < 0.46:
                 outs.append(self.fact_block())
+            elif not self.scalar_only and self.linalg and r < 0.52 and not self.traced_pow:
+                outs.append(self.rect_block())
             elif self.traced_pow and r < 0.52:
                 a = self.pick_scalar(); b = self.pick_scalar()
                 sq = self.emit(['un', 'square', a], 's')
